@@ -34,7 +34,7 @@ type RFaultCase struct {
 func init() {
 	register(&Scenario{
 		Name: "read-fault",
-		Rule: "one case = one workload (segment + program of read calls) whose complete fault space is enumerated: every storage-read index x 4 error kinds persistent + 2 transient window lengths; non-trivial = the fault-free program performs >=10 storage reads and at least two different kinds of call; distinct = distinct case JSON",
+		Rule: "one case = one workload (segment + program of read calls) whose complete fault space is enumerated: every storage-read index x 5 error kinds persistent + 2 transient window lengths; non-trivial = the fault-free program performs >=10 storage reads and at least two different kinds of call; distinct = distinct case JSON",
 		Gen:  genRFaultCase,
 		Run:  runRFaultCase,
 	})
